@@ -39,7 +39,7 @@ impl Prop for C06 {
 
     fn assumptions(&self) -> Vec<String> {
         vec![
-            "the polling-reader race is sampled (about one case in eight: 40..300 reloads against two polling watchers and two guard-holding readers, then 200..1500 rewrites against 2..3 concurrent pollers of reloaded_global(): at most one true per rewrite in total)".into(),
+            "the polling-reader race is sampled (about one case in eight: 40..300 reloads against two polling watchers and two guard-holding readers, then 200..1500 rewrites against 2..3 concurrent pollers of reloaded_global(): at most one true per rewrite in total; then the late-registration scenario: an asset loaded for the first time after the notification about its file was examined by a request (a second request queued behind, schedule hook) is not reloaded)".into(),
             "in enhance_hot_reloading mode passes cannot be delimited from outside: the exact once-per-rewrite count is checked in hot_reload() mode only".into(),
         ]
     }
@@ -93,6 +93,11 @@ impl Prop for C06 {
                 }
                 // several pollers of the global flag: each rewrite is reported at most once in total
                 if let Some((sig, what)) = super::c07::global_flag_pollers(step.order.saturating_mul(5), 2 + (step.order % 2) as u8) {
+                    out.fail(format!("racing-reader:{sig}"), what);
+                    return out;
+                }
+                // an asset loaded after the notification about its file was examined is not reloaded
+                if let Some((sig, what)) = super::c07::late_registration() {
                     out.fail(format!("racing-reader:{sig}"), what);
                     return out;
                 }
